@@ -23,6 +23,9 @@ pub fn shim_path() -> PathBuf {
 #[derive(Clone, Debug)]
 pub enum Stdin {
 	Bytes(Vec<u8>),
+	/// written packet by packet; the next packet is written only once xt has drained the pipe and is
+	/// blocked in read(0, ..) again (a deterministic "bursty producer")
+	Packets(Vec<Vec<u8>>),
 	Null,
 	File(PathBuf),
 }
@@ -109,7 +112,7 @@ pub fn run(sp: &Spawn) -> ProcOut {
 		cmd.env(k, v);
 	}
 	match &sp.stdin {
-		Stdin::Bytes(_) => {
+		Stdin::Bytes(_) | Stdin::Packets(_) => {
 			cmd.stdin(Stdio::piped());
 		}
 		Stdin::Null => {
@@ -156,6 +159,32 @@ pub fn run(sp: &Spawn) -> ProcOut {
 				let _ = pipe.write_all(&data);
 			}));
 		}
+	}
+	if let Stdin::Packets(packets) = &sp.stdin {
+		let mut pipe = child.stdin.take().unwrap();
+		let packets = packets.clone();
+		stdin_thread = Some(std::thread::spawn(move || {
+			for p in packets {
+				if pipe.write_all(&p).is_err() {
+					return;
+				}
+				let start = Instant::now();
+				loop {
+					let mut pending: libc::c_int = 0;
+					// SAFETY: FIONREAD on a pipe descriptor we own, with a valid out-pointer.
+					unsafe {
+						libc::ioctl(pipe.as_raw_fd(), libc::FIONREAD, &mut pending);
+					}
+					let sys = std::fs::read_to_string(format!("/proc/{pid}/syscall")).unwrap_or_default();
+					let mut it = sys.split_whitespace();
+					let blocked_in_read = it.next() == Some("0") && it.next() == Some("0x0");
+					if (pending == 0 && blocked_in_read) || sys.is_empty() || start.elapsed() > Duration::from_secs(5) {
+						break;
+					}
+					std::thread::sleep(Duration::from_micros(200));
+				}
+			}
+		}));
 	}
 	let mut stdout = vec![];
 	if let Some(mut p) = child.stdout.take() {
@@ -290,7 +319,7 @@ pub fn run_with_leaving_consumer(sp: &Spawn, capacity: i32, take: usize) -> (Pro
 		cmd.env(k, v);
 	}
 	match &sp.stdin {
-		Stdin::Bytes(_) => {
+		Stdin::Bytes(_) | Stdin::Packets(_) => {
 			cmd.stdin(Stdio::piped());
 		}
 		Stdin::Null => {
